@@ -579,6 +579,11 @@ def judgeC06 (st : St) (pre : Hub) (op : Op) (impl : ImplOut) : String :=
       let roomBefore := (digestSess st.lastDigest s).bind (·[5]?)
       let roomAfter := (digestSess impl.digest s).bind (·[5]?)
       if st.lastDigest != [] && roomBefore != roomAfter then s!"violated:room-changed-on-resume:s{s}" else
+      -- without loss: every client message and room message queued for the session while it was away (the model's
+      -- queue, chat-refresh notices merged into one) is written to the resuming connection
+      let owed := (x.pending.map showMsg).filter (fun m => hasPrefix "msg(" m || hasPrefix "roommsg(" m)
+      let lost := owed.find? (fun m => !got.contains m)
+      if lost.isSome then s!"violated:message-lost-during-interruption:s{s}:{lost.getD ""}" else
       -- takeover: a previous connection is told so
       (match x.conn with
        | some p => if impl.deliveries.contains (p, "bye(session_resumed)") then "ok" else s!"violated:no-takeover-bye:c{p}"
